@@ -31,6 +31,8 @@ class EvalInterp(Interp):
 
     def _compare(self, args, node):
         self.events.append(('compare', tuple(args)))
+        if all(isinstance(a, (int, float)) and not isinstance(a, bool) for a in args[:2]):
+            return (args[0] > args[1]) - (args[0] < args[1])
         if getattr(self, 'free_compare', False):
             return 0
         if self.cmp_operands is None:
@@ -57,6 +59,8 @@ class EvalInterp(Interp):
 
     def _boolean(self, args, node):
         v = args[0]
+        if isinstance(v, (int, float)) and not isinstance(v, bool):
+            return v != 0
         if isinstance(v, Sym) and v.kind in ('result', 'val'):
             return bool(v.args[1]) if len(v.args) > 1 else True
         if v is None or v is False:
@@ -394,6 +398,28 @@ def _fmt(o):
 
 def _fmt_ev(ev):
     return '[' + ', '.join(f'call {e[1]}{list(e[2])!r}' if e[0] == 'call' else 'log' for e in ev) + ']'
+
+
+def operator_coverage(repo, ops, rule='E6e'):
+    """{op: result of evaluating `6 op 3` on two number literals} - the operators the evaluator actually implements for numbers"""
+    mod = repo.module('runtime')
+    func = mod.funcs.get('evaluate_expression')
+    it = EvalInterp(repo, mod, rule)
+    out = {}
+    for op in ops:
+        it.behaviour, it.truths = {}, {}
+        it.cmp_operands = None
+        it.free_compare = False
+        expr = {'binary': {'op': op, 'left': {'number': 6.0}, 'right': {'number': 3.0}}}
+        try:
+            got = it.evaluate(func, build(expr), None, ADict({}), True, 'off')
+        except (Unrecognised, HostTruth) as exc:
+            got = ('undecided', str(exc)[:80])
+        out[op] = got
+    return out
+
+
+WANT_NUMBERS = {'+': 9.0, '-': 3.0, '*': 18.0, '/': 2.0, '%': 0.0, '**': 216.0, '==': False, '!=': True, '<': False, '<=': False, '>': True, '>=': True, '&&': 3.0, '||': 6.0}
 
 
 def report(chk, rule_by_cat, what):
